@@ -25,7 +25,7 @@ def plan(prop, tier):
     """List of (n, watch, K, qcap)."""
     if tier == 'quick':
         p = [(2, False, 18, 6)]
-        if prop in ('C01', 'C07'):
+        if prop in ('C01', 'C07', 'C11'):
             p.append((2, True, 20, 6))
         return p
     p = [(2, False, 18, 6), (3, False, 28, 8)]
@@ -50,6 +50,12 @@ def run(prop, tier, seed, repo, jobs):
             if watch and tier == 'quick' and prop == 'C11' and 'service' not in kinds:
                 continue     # single-instance obligation is about services
             cases.append((prop, kinds, watch, K, qcap, seed, True, 300 if tier == 'quick' else (600 if n >= 3 else 1200), repo, tier, None if tier == 'quick' else (900 if n >= 3 else 2400)))
+    if prop in ('C11', 'C20'):
+        # one fixed three-target graph: an aggregate (the only root) over a build and a service -- the smallest graph in which
+        # the two kinds of acknowledgement of one target travel separately
+        pin = {'deps': {2: [0, 1]}, 'roots': [2]}
+        only = ('stays_alive_iff_service_requested', 'single_instance', 'dependency_services_are_running_when_a_build_starts')
+        cases.append(('C11', ('build', 'service', 'aggregate'), False, 26, 8, seed, True, 300, repo, tier, 600, pin, only))
     L = 10 if tier == 'quick' else 14
     locals_ = [(prop, kind, watch, L, repo) for (kind, watch) in proto.LOCAL_PLAN.get(prop, [])]
     sysq_cases = []
@@ -415,6 +421,7 @@ def run(prop, tier, seed, repo, jobs):
         'bounds': [{'n_targets': n, 'watch': w, 'K_steps': K, 'inbox_capacity_model': q, 'max_notifications': 2 if w else 0} for (n, w, K, q) in plan(prop, tier)],
         'outside_claim': ['graphs with more targets than the bound', 'schedules longer than K (K is checked sufficient for quiescence where stated)',
                           'blocking on full channels (capacity 64 is never reached within the bound; see DESIGN F2)', 'real OS scheduling / process groups'],
+        'pinned_cases': [{'kinds': r['kinds'], 'graph': r['pinned'], 'K_steps': r['K']} for r in results if r.get('pinned')],
         'exhaustive': False, 'known_finding_instances': known_instances, 'undecided_at_n3': undecided, 'queue_pressure_search': sysq_summary,
         'case_wall_s': {('%s%s' % ('/'.join(r['kinds']), ' watch' if r['watch'] else '')): [r.get('wall_s'), r.get('summary_s'), r.get('unroll_s'), (r.get('witness') or {}).get('solver_s')] for r in results},
     }
